@@ -120,6 +120,11 @@ fn big_case(ctx: &Ctx, target: usize, asm: Asm, bin: bool, write_limit: usize, r
     }
     let cols: Vec<Column> = (0..lens.len()).map(|i| Column { table: "t".into(), column: format!("c{}", i), coltype: ColumnType::MYSQL_TYPE_LONG_BLOB, colflags: ColumnFlags::empty() }).collect();
     let mut ops = vec![QOp::Start(0)];
+    // a varying number of small rows first: the big message starts at a varying packet count
+    let pre_rows = [0usize, 1, 59, 60, 61, 123, 124, 125, 250, 251][(idx as usize + target) % 10];
+    for _ in 0..pre_rows {
+        ops.push(QOp::Row((0..lens.len()).map(|_| Cell::val(V::Bytes(b"s".to_vec()))).collect(), RowForm::Owned));
+    }
     for (i, &l) in lens.iter().enumerate() {
         ops.push(QOp::Col(Cell::val(V::Stream(ctx.seed, i as u64, l))));
     }
@@ -140,6 +145,7 @@ fn big_case(ctx: &Ctx, target: usize, asm: Asm, bin: bool, write_limit: usize, r
     let k = (target + 8) / MAXP;
     let dd = target as i64 - (k * MAXP) as i64;
     rep.counters.class(format!("k={} d={} {:?} {} wl={}", k, dd, asm, if bin { "bin" } else { "text" }, if write_limit == usize::MAX { "inf".to_string() } else { write_limit.to_string() }));
+    rep.counters.class(format!("{} small rows before the big message", pre_rows));
     rep.counters.max("max_message_bytes", target as u64);
     let d = || J::obj().set("row_bytes", target).set("k", k).set("d", dd).set("assembly", format!("{:?}", asm)).set("cells", lens.iter().map(|&l| J::from(l)).collect::<Vec<_>>()).set("mode", if bin { "binary" } else { "text" }).set("write_limit", if write_limit == usize::MAX { -1 } else { write_limit as i64 }).set("outcome", obs.outcome.describe());
     if idx < 2 {
@@ -169,7 +175,7 @@ fn big_case(ctx: &Ctx, target: usize, asm: Asm, bin: bool, write_limit: usize, r
     }
     // find the big row: the first message after the column-definition EOF of exchange #3
     // messages: greeting, auth ok, prepare ok, [count, defs.., EOF, row1, row2, EOF], ping ok
-    let first_row = 3 + 1 + lens.len() + 1;
+    let first_row = 3 + 1 + lens.len() + 1 + pre_rows;
     let Some(m) = msgs.get(first_row) else {
         rep.violations.push(viol("C04", "C04 row-message-missing".into(), format!("only {} messages in the output, expected the big row at index {}", msgs.len(), first_row), d()));
         return;
@@ -295,6 +301,7 @@ pub fn run(ctx: &Ctx) -> Report {
         }
     });
     rep.merge(r);
+    rep.merge(super::mega::run(ctx, "C04", 600, 20000));
     if ctx.strict() {
         rep.require("big_messages_compared", 5);
         rep.require("maximal_packets_seen", 5);
